@@ -5,6 +5,7 @@ package actor
 import (
 	"context"
 	"sync"
+	"time"
 
 	"github.com/kercylan98/vivid"
 	"github.com/kercylan98/vivid/internal/guard"
@@ -250,4 +251,64 @@ func VH_C05_launch_first_live() {
 	if na.n >= 2 {
 		vrtReach("greeted")
 	}
+}
+
+// vhAsker asks `target` on every user message and keeps the futures.
+type vhAsker struct {
+	target  vivid.ActorRef
+	futures []vivid.Future[vivid.Message]
+}
+
+func (a *vhAsker) OnReceive(ctx vivid.ActorContext) {
+	if u, ok := ctx.Message().(*vhUserMsg); ok {
+		a.futures = append(a.futures, ctx.Ask(a.target, &vhUserMsg{N: u.N}, time.Hour))
+	}
+}
+
+// vhReplyFirst replies only to the request numbered 1.
+type vhReplyFirst struct{}
+
+func (vhReplyFirst) OnReceive(ctx vivid.ActorContext) {
+	if u, ok := ctx.Message().(*vhUserMsg); ok && u.N == 1 {
+		ctx.Reply(&vhUserMsg{N: 100})
+	}
+}
+
+// VH_C04_registration_live: on the live system (preemptive mode) an asker's
+// first Ask is answered - on the replier's goroutine - while the asker is
+// issuing its second Ask, which is never answered; then the asker is killed.
+// Whatever the interleaving, the second Ask is completed by the asker's death
+// and the system keeps no registration for either.
+func VH_C04_registration_live() {
+	sys := vhLiveSystem()
+	rref, err := sys.ActorOf(vhReplyFirst{}, vivid.WithActorName("r"))
+	vrtAssert(err == nil, "setup-spawn")
+	asker := &vhAsker{target: rref}
+	aref, err := sys.ActorOf(asker, vivid.WithActorName("a"))
+	vrtAssert(err == nil, "setup-spawn")
+	vrtYield()
+	sys.Tell(aref, &vhUserMsg{N: 1})
+	sys.Tell(aref, &vhUserMsg{N: 2})
+	vrtYield()
+	sys.Kill(aref, false, "x")
+	vrtYield()
+	vrtRaceOff()
+	vrtAssert(len(asker.futures) == 2, "both-asks-issued")
+	left := 0
+	sys.actorContexts.Range(func(k, v any) bool {
+		if _, isCtx := v.(*Context); !isCtx {
+			left++
+		}
+		return true
+	})
+	vrtAssert(left == 0, "no-registration-after-the-asker-died")
+	vrtAssert(len(sys.futureAgents) == 0, "no-registration-after-the-asker-died")
+	if len(asker.futures) == 2 {
+		m1, e1 := asker.futures[0].Result()
+		u, ok := m1.(*vhUserMsg)
+		vrtAssert(e1 == nil && ok && u.N == 100, "answered-ask-has-its-reply")
+		_, e2 := asker.futures[1].Result()
+		vrtAssert(e2 != nil, "outstanding-ask-completed-by-the-askers-death")
+	}
+	vrtReach("asker-dead")
 }
